@@ -1,10 +1,12 @@
 import JediModel.Gen.C15
 import JediModel.Lemmas.Recursion
+import JediModel.Lemmas.Mro
 /-! # C15 — Inference gives up instead of recursing or exploding
 
 Property theorems only. The four limits are arbitrary naturals in the general statements (so a
 changed *value* keeps them), and the source-level instances are stated over `Gen.C15.*`; the
-*shape* of `push_execution`, `pop_execution`, `_memoize_default` and `_limit_value_infers` is tied
+*shape* of `push_execution`, `pop_execution`, `_memoize_default`, `_limit_value_infers` and
+`ClassMixin.py__mro__` is tied
 to the model by the `*_transcribed` theorems (a removed or reordered check breaks the build) and
 by the correspondence streams of `harness/props/c15.py`. -/
 namespace JediModel.Props.C15
@@ -211,6 +213,100 @@ example : (limitRun 2 100 Counts.empty [(5, false), (5, false), (5, false), (6, 
 /-- FULL for `cap = 0` is false (the `KeyError` branch enters the body without looking at the
 cap), hence the `1 ≤ M` above -/
 theorem node_cap_zero_witness : (limitRun 0 100 Counts.empty [(5, false)]).2 = [true] := by decide
+
+/-! ## the listing of base classes: `ClassMixin.py__mro__`
+
+The polynomial-growth half of C15 for a chain or tree of n *class* definitions: every query on an
+instance walks `py__mro__` of its class; the listing must not repeat classes that are reachable
+through several bases. -/
+
+/-- `py__mro__` consists of exactly the statements `Model.Mro` transcribes, is memoised by the
+generator cache, and — the line everything below depends on — the element appended to the
+de-duplication list, the element tested against it and the element yielded are all the loop
+variable of the innermost loop -/
+theorem mro_transcribed :
+    Gen.C15.mroSteps =
+      ["mro = [self]", "yield self", "for lazy_cls in self.py__bases__()",
+       "for cls in lazy_cls.infer()", "try", "mro_method = cls.py__mro__",
+       "except AttributeError", "else", "for cls_new in mro_method()",
+       "if cls_new not in mro", "mro.append(cls_new)", "yield cls_new",
+       "end", "end", "end", "end", "end"] ∧
+    Gen.C15.mroDecorators = ["inference_state_method_generator_cache()"] ∧
+    Gen.C15.mroSeenList = "mro" ∧
+    Gen.C15.mroAppended = Gen.C15.mroYielded ∧ Gen.C15.mroTested = Gen.C15.mroYielded ∧
+    Gen.C15.mroLoopVar = Gen.C15.mroYielded := by decide
+
+open JediModel.Mro in
+/-- `mro_linear`: over ANY inheritance relation on `n` classes (several bases, repeated bases,
+shared ancestors at any depth), a `py__mro__` listing that completes contains no class twice and
+only classes of the hierarchy: its length is at most `n` — for every class and every nesting depth -/
+theorem mro_linear (bases : Nat → List Nat) (n : Nat) (hc : Closed bases n)
+    (fuel c : Nat) (hcn : c < n) (l : List Nat) (h : mro bases fuel c = .ok l) :
+    l.Nodup ∧ (∀ x ∈ l, x < n) ∧ l.length ≤ n := by
+  unfold mro outOf at h
+  split at h
+  · simp at h
+  · rename_i s hs
+    simp at h
+    subst h
+    have := (mroWith_spec bases n hc fuel c s hcn hs).1
+    exact ⟨this.nodup, this.below, this.length_le⟩
+
+open JediModel.Mro in
+/-- `mro_work_poly`: the body of `py__mro__` of a class with `k` inferred bases runs its inner loop at
+most `k·n` times and compares at most `k·n²` list cells; all bodies of a hierarchy together (each
+runs once per inference state: generator cache) need at most `|E|·n` iterations -/
+theorem mro_work_poly (bases : Nat → List Nat) (n : Nat) (hc : Closed bases n) (fuel : Nat) :
+    (∀ c s, c < n → mroWith recordYielded bases fuel c = .ok s →
+      s.steps ≤ (bases c).length * n ∧ s.scan ≤ (bases c).length * (n * n)) ∧
+    totalSteps recordYielded bases fuel n ≤ inheritEdges bases n * n :=
+  ⟨fun c s hcn h => (mroWith_spec bases n hc fuel c s hcn h).2,
+   totalSteps_le bases n hc fuel n (Nat.le_refl n)⟩
+
+open JediModel.Mro in
+/-- `mro_terminates`: in an acyclic hierarchy (bases are defined before the class) nesting depth
+`c + 1` suffices for class `c`, the listing completes and is at most `n` long -/
+theorem mro_terminates (bases : Nat → List Nat) (hdag : ∀ c, ∀ b ∈ bases c, b < c) (n c : Nat)
+    (hcn : c < n) : ∃ l, mro bases n c = .ok l ∧ l.length ≤ n := by
+  obtain ⟨s, hs⟩ := mroWith_ok recordYielded bases hdag n c hcn
+  have hc : Closed bases n := fun c hc b hb => by have := hdag c b hb; omega
+  have h : mro bases n c = .ok s.out := by simp [mro, outOf, hs]
+  exact ⟨s.out, h, (mro_linear bases n hc n c hcn s.out h).2.2⟩
+
+/-- a diamond on top of a diamond: 7 classes -/
+example : (match JediModel.Mro.mro JediModel.Mro.diamondBases 7 6 with | .ok l => some l | _ => none)
+    = some [6, 4, 3, 1, 0, 2, 5] := by decide
+
+/-- length of the listing and cells compared for the top class of `k` nested diamonds -/
+def diamondListing (record : Nat → Nat → Nat) (k : Nat) : Option (Nat × Nat) :=
+  match JediModel.Mro.mroWith record JediModel.Mro.diamondBases (3 * k + 1) (3 * k) with
+  | .ok s => some (s.out.length, s.scan)
+  | .error _ => none
+
+set_option maxRecDepth 4000 in
+/-- FULL for an arbitrary recorded element is false: recording the direct base instead of the
+yielded class (`mro.append(cls)`) lists `2^(k+2) - 3` entries for `k` nested diamonds (3k+1
+classes) and compares ~4^k cells, where the source lists `3k + 1` -/
+theorem mro_dedup_needed_witness :
+    (List.range 4).map (fun k => (diamondListing JediModel.Mro.recordBase k).map (·.1))
+      = [some (2 ^ 2 - 3), some (2 ^ 3 - 3), some (2 ^ 4 - 3), some (2 ^ 5 - 3)] ∧
+    (List.range 4).map (fun k => (diamondListing JediModel.Mro.recordYielded k).map (·.1))
+      = [some 1, some 4, some 7, some 10] ∧
+    diamondListing JediModel.Mro.recordBase 3 = some (29, 406) ∧
+    diamondListing JediModel.Mro.recordYielded 3 = some (10, 115) := by decide
+
+/-- FULL without acyclicity is false for the *model* (its fuel runs out on a self-inheriting class);
+in the code the generator cache's sentinel cuts the cycle — oracle streams `gencache` and `e2e` -/
+theorem mro_cycle_needs_sentinel (fuel : Nat) :
+    JediModel.Mro.mro (fun _ => [0]) fuel 0 = .error .fuel := by
+  induction fuel with
+  | zero => rfl
+  | succ fuel ih =>
+    simp only [JediModel.Mro.mro] at ih ⊢
+    unfold JediModel.Mro.mroWith
+    simp only [JediModel.Mro.outer]
+    rw [ih]
+    rfl
 
 /-! ## together -/
 
